@@ -161,3 +161,30 @@ extern "C" void h_subnet_single()
 #endif
     VREACH("end");
 }
+
+// ------------------------------------------------------------------------------------------------ ordering (ban-list key order)
+// banmap_t is std::map<CSubNet, CBanEntry>: lookups/erasures are only correct if operator< is a strict weak order whose
+// equivalence is operator== (on valid subnets). Three arbitrary CIDR subnets (classes concrete per query, addresses and prefix lengths symbolic).
+extern "C" void h_subnet_order()
+{
+    uint8_t ra[16], rb[16], rc[16];
+    draw_cls(ra, CA); draw_cls(rb, CB); draw_cls(rc, CA);
+    const uint8_t la = nondet_u8(), lb = nondet_u8(), lc = nondet_u8();
+    CNetAddr a, b, c;
+    set_addr(a, ra, CA); set_addr(b, rb, CB); set_addr(c, rc, CA);
+    const CSubNet sa(a, la), sb(b, lb), sc(c, lc);
+    const bool ab = sa < sb, ba = sb < sa, bc = sb < sc, ac = sa < sc, cb = sc < sb, ca = sc < sa;
+    verif_observe(ab); verif_observe(ba);
+    VASSERT(!(sa < sa), "operator< irreflexive");
+    VASSERT(!(ab && ba), "operator< asymmetric");
+    if (ab && bc) VASSERT(ac, "operator< transitive");
+    if (!ab && !ba && !bc && !cb) VASSERT(!ac && !ca, "incomparability transitive (strict weak order)");
+    if (sa.IsValid() && sb.IsValid()) VASSERT((!ab && !ba) == (sa == sb), "two valid subnets are unordered iff they are equal (map key identity = subnet identity)");
+    VWITNESS(ab && sa.IsValid() && sb.IsValid() && la > lb, "a longer prefix can sort before a shorter one");
+#if CA == CB
+    VWITNESS(sa.IsValid() && sb.IsValid() && sa == sb && la == lb, "equal subnets reachable");
+#else
+    VWITNESS(sa.IsValid() && sc.IsValid() && sa == sc && la == lc, "equal subnets reachable");
+#endif
+    VREACH("end");
+}
